@@ -142,6 +142,7 @@ class Recorder:
     and failing cases."""
 
     NSAMPLES = 3
+    HISTORY_BYTES = 40_000_000
 
     def __init__(self, sub, known, budget_s, shrink_s, casefd=None):
         self.casefd = casefd        # last case under evaluation (crashes)
@@ -157,6 +158,11 @@ class Recorder:
         self.t0 = time.time()
         self.tfail = None
         self.excluded = set()       # root-cause buckets already reported
+        # cases evaluated before the first failure (serialised; bounded):
+        # used when a failing case only fails after earlier calls made in
+        # the same process (state kept by the code under test)
+        self.history = []
+        self.history_bytes = 0
         self.budget_s = budget_s
         self.shrink_s = shrink_s
         self.status = "ok"
@@ -170,10 +176,16 @@ class Recorder:
                 self.status = "inconclusive"
                 raise _Stop("budget")
         self.evaluations += 1
-        if self.casefd is not None:
-            data = json.dumps(case, allow_nan=True).encode()
-            os.pwrite(self.casefd, data, 0)
-            os.ftruncate(self.casefd, len(data))
+        keep = self.tfail is None and self.history_bytes < self.HISTORY_BYTES
+        if self.casefd is not None or keep:
+            text = json.dumps(case, allow_nan=True)
+            if self.casefd is not None:
+                data = text.encode()
+                os.pwrite(self.casefd, data, 0)
+                os.ftruncate(self.casefd, len(data))
+            if keep:
+                self.history.append(text)
+                self.history_bytes += len(text)
         try:
             info = self.sub.oracle(case)
         except Skip:
@@ -290,6 +302,9 @@ class Recorder:
             "failure": self.minimal_failure(),
             "failures": self.smallest_failures(),
             "nfailing": len(self.failures),
+            # (the first failing case is the last entry: it may be the one
+            # that changes the state)
+            "history": self.history if self.failures else [],
             "known_hits": dict(self.known_hits),
             "status": self.status, "wall_s": round(time.time() - self.t0, 2),
         }
@@ -541,10 +556,51 @@ def run_tasks(tasks, nproc):
     return results
 
 
-def replay_isolated(module, subname, case):
+def minimise_history(module, subname, history, case, max_trials=80):
+    """The case fails after `history` but not alone: reduce the history
+    (delta debugging, every trial in a fresh process). Returns (history,
+    message) or None when the failure does not reproduce."""
+    msg = replay_isolated(module, subname, case, history)
+    if msg is None:
+        return None
+    trials, n = 0, 2
+
+    def fails(cand):
+        nonlocal trials
+        trials += 1
+        return replay_isolated(module, subname, case, cand)
+
+    while len(history) >= 2 and trials < max_trials:
+        size = -(-len(history) // n)
+        chunks = [history[i:i + size] for i in range(0, len(history), size)]
+        found = False
+        for ch in chunks:
+            if trials >= max_trials:
+                break
+            m = fails(ch)
+            if m is not None:
+                history, msg, n, found = ch, m, 2, True
+                break
+        if not found and len(chunks) > 2:
+            for i in range(len(chunks)):
+                if trials >= max_trials:
+                    break
+                comp = [h for j, c in enumerate(chunks) if j != i for h in c]
+                m = fails(comp)
+                if m is not None:
+                    history, msg, n, found = comp, m, max(n - 1, 2), True
+                    break
+        if not found:
+            if n >= len(history):
+                break
+            n = min(len(history), n * 2)
+    return history, msg
+
+
+def replay_isolated(module, subname, case, history=()):
     """replay_case in a forked child: returns None (holds), a message
     (violation) or raises RuntimeError (harness problem)."""
-    kind, val = isolated(lambda: replay_case(module, subname, case))
+    kind, val = isolated(lambda: replay_case(module, subname, case, history))
     if kind == "ok":
         return val
     if kind == "crash":
@@ -552,11 +608,17 @@ def replay_isolated(module, subname, case):
     raise RuntimeError(val)
 
 
-def replay_case(module, subname, case):
-    """Run the oracle once on a saved case. Returns None or the message."""
+def replay_case(module, subname, case, history=()):
+    """Run the oracle once on a saved case (after the saved earlier cases,
+    whose own outcome is ignored). Returns None or the message."""
     sub = next((s for s in module.SUBS if s.name == subname), None)
     if sub is None:
         raise KeyError(f"unknown sub-check {subname}")
+    for h in history:
+        try:
+            sub.oracle(json.loads(h) if isinstance(h, str) else h)
+        except Exception:
+            pass
     try:
         sub.oracle(case)
     except Skip:
@@ -571,13 +633,17 @@ def replay_case(module, subname, case):
     return None
 
 
-def write_replay(prop, subname, case, msg):
+def write_replay(prop, subname, case, msg, history=()):
     d = OUT / "replay" / prop
     d.mkdir(parents=True, exist_ok=True)
     f = d / f"{subname}-{digest(case):016x}.json"
-    f.write_text(json.dumps({"property": prop, "subcheck": subname,
-                             "message": msg, "case": case},
-                            allow_nan=True, indent=1))
+    rec = {"property": prop, "subcheck": subname, "message": msg,
+           "case": case}
+    if history:
+        # earlier cases evaluated in the same process, in order
+        rec["history"] = [json.loads(h) if isinstance(h, str) else h
+                          for h in history]
+    f.write_text(json.dumps(rec, allow_nan=True, indent=1))
     return f
 
 
@@ -589,6 +655,7 @@ def run_property(module, tier, base_seed, build_info, nproc=None,
     ti = 0 if tier == "quick" else 1
     nproc = nproc or min(16, os.cpu_count() or 1)
     violations = []        # (subname, case, msg)
+    histories = {}         # subname -> cases evaluated before a failure
     known_lines = Counter()
     errors = []
 
@@ -602,7 +669,8 @@ def run_property(module, tier, base_seed, build_info, nproc=None,
             if only and r["subcheck"] not in only:
                 continue
             nreg += 1
-            msg = replay_isolated(module, r["subcheck"], r["case"])
+            msg = replay_isolated(module, r["subcheck"], r["case"],
+                                  r.get("history", ()))
             if msg is not None:
                 hit = None
                 for what, pred in _known_for(module, r["subcheck"]):
@@ -662,6 +730,8 @@ def run_property(module, tier, base_seed, build_info, nproc=None,
             s["status"] = "violation"
             for case, msg in r.get("failures") or [r["failure"]]:
                 violations.append((r["sub"], case, msg))
+            if r.get("history"):
+                histories.setdefault(r["sub"], r["history"])
         elif r["status"] == "inconclusive" and s["status"] == "ok":
             s["status"] = "inconclusive"
 
@@ -698,6 +768,23 @@ def run_property(module, tier, base_seed, build_info, nproc=None,
                 errors.append((subname, f"replay raised {e!r}"))
             if confirmed is not None:
                 break
+        hist = ()
+        if confirmed is None and histories.get(subname):
+            # the smallest failing case holds in a fresh process: does it
+            # fail after the cases evaluated before it in the worker (state
+            # kept between calls by the code under test)?
+            k, case, msg = lst[0]
+            try:
+                red = minimise_history(module, subname, histories[subname],
+                                       case)
+            except Exception as e:
+                red = None
+                errors.append((subname, f"history replay raised {e!r}"))
+            if red is not None:
+                hist, confirmed = red
+                confirmed = (f"[only after {len(hist)} earlier call(s) in "
+                             f"the same process, saved as 'history'] "
+                             + confirmed)
         if confirmed is None:
             # nothing reproduced from the saved inputs: not reported as a
             # violation (state leak / flakiness is a harness matter)
@@ -706,7 +793,7 @@ def run_property(module, tier, base_seed, build_info, nproc=None,
             per_sub[subname]["status"] = "error" if subname in per_sub \
                 else "error"
             continue
-        path = write_replay(prop, subname, case, confirmed)
+        path = write_replay(prop, subname, case, confirmed, hist)
         nviol += 1
         print(f"VIOLATION property={prop} replay={path}")
         print(f"  sub-check {subname}: {confirmed[:600]}")
